@@ -10,8 +10,10 @@ Extracted from /repo/crates/steel-core/src:
       pair of numeric kinds reaches a non-panicking arm (the statement whose failure was `(* 1/2 <big rational>)`).
       The arm extraction re-uses the parsing helpers of translate/c10_arms.py.
   (2) every potential panic site in primitives/*.rs and steel_vm/primitives.rs outside `#[cfg(test)]` code and comments:
-      `.unwrap()`, `.expect(`, `unreachable!`, `todo!`, `unimplemented!`, `panic!`, `assert!`-family, ` as usize`, and
-      `x[i]` / `x[a..b]` indexing, each with its file, enclosing fn, normalised source line and an id (hash of file, fn,
+      `.unwrap()`, `.expect(`, `unreachable!`, `todo!`, `unimplemented!`, `panic!`, `assert!`-family, `debug_assert!`-family,
+      ` as usize`, `x[i]` / `x[a..b]` indexing, and calls of methods that panic on an out-of-range index / range / size
+      (`split_at`, `split_off`, `swap_remove`, `drain`, `copy_from_slice`, `swap`, `remove`, `insert`, `windows`, `chunks`,
+      `step_by`, `rotate_*`, `borrow_mut`, ...), each with its file, enclosing fn, normalised source line and an id (hash of file, fn,
       kind, source line, occurrence number - stable when lines move).  Lean decides `panic_sites_classified`: every id is
       in the hand-reviewed table SteelVerif/C07/LemmasSites.lean.
 
@@ -106,26 +108,115 @@ def unary_arms(mbody):
     return out
 
 
+NUM_PAT = re.compile(r"(?:\bSteelVal::|(?<![:\w]))(IntV|NumV|BigNum|Rational|BigRational|Complex)\s*\(")
+ARM_FILES = ["primitives/numbers.rs", "rvals.rs", "primitives/strings.rs"]
+# the tables that existed before the generic scan keep their names (Props.lean mentions some of them)
+RENAME = {"divide_primitive": "recip"}
+
+
+def scan_matches(rel):
+    """every `match` of the file that dispatches on numeric kinds: at least two arms name a numeric variant and at
+    least half of the arms do.  Yields (fn name, scrutinee text, is_binary, arms)."""
+    code = blank_comments_and_strings(open(os.path.join(SRC, rel), encoding="utf-8").read())
+    cut = code.find("#[cfg(test)]")
+    if cut >= 0:
+        code = code[:cut]
+    fns = fn_ranges(code)
+    for m in re.finditer(r"\bmatch\s+", code):
+        i, depth, j = m.end(), 0, m.end()
+        while j < len(code):
+            c = code[j]
+            if c in "([":
+                depth += 1
+            elif c in ")]":
+                depth -= 1
+            elif c == "{" and depth == 0:
+                break
+            elif c == ";" and depth == 0:
+                j = len(code)
+                break
+            j += 1
+        if j >= len(code):
+            continue
+        scrut = code[i:j].strip()
+        k = K10.matching(code, j, "{", "}")
+        raw_arms = K10.arms_of(code[j + 1:k - 1])
+        npat = sum(1 for p, _ in raw_arms if NUM_PAT.search(p))
+        if npat < 2 or npat * 2 < len(raw_arms):
+            continue
+        encl = [n for (n, a, b) in fns if a <= m.start() < b]
+        fn = encl[-1] if encl else None
+        if fn is None:
+            # an `impl` method position the fn pattern does not see (e.g. `fn partial_cmp` inside impl blocks is seen;
+            # a match outside any fn is not expected)
+            die("%s: a numeric match outside any fn (scrutinee %s)" % (rel, scrut[:40]))
+        first = raw_arms[0][0].strip()
+        binary = scrut.startswith("(") and first.startswith("(")
+        if binary:
+            inner = first[1:K10.matching(first, 0, "(", ")") - 1]
+            binary = len(K10.split_top(inner, ",")) == 2
+        body = code[j + 1:k - 1]
+        yield fn, scrut, binary, (binary_arms(body) if binary else unary_arms(body))
+
+
 def extract_arms():
-    numbers = K10.strip_comments(open(os.path.join(SRC, "primitives/numbers.rs")).read())
-    rvals = K10.strip_comments(open(os.path.join(SRC, "rvals.rs")).read())
+    """ALL numeric dispatches of numbers.rs, rvals.rs and strings.rs (found by scanning, not from a list of names)"""
     t2, t1 = {}, {}
-    for name, scrut in [("add_two", r"\(x,\s*y\)"), ("add_two_fallible", r"\(x,\s*y\)"), ("multiply_two", r"\(x,\s*y\)"),
-                        ("truncate_quotient", r"\(&args\[0\],\s*&args\[1\]\)"),
-                        ("truncate_remainder", r"\(&args\[0\],\s*&args\[1\]\)"),
-                        ("floor_remainder", r"\(&args\[0\],\s*&args\[1\]\)"),
-                        ("expt", r"\(left,\s*right\)")]:
-        body = K10.fn_body(numbers, r"fn\s+%s\s*\(" % name)
-        t2[name] = binary_arms(K10.match_body(body, scrut))
-    t2["number_equality"] = binary_arms(K10.match_body(K10.fn_body(rvals, r"pub fn number_equality\s*\("), r"\(left,\s*right\)"))
-    t2["partial_cmp"] = binary_arms(K10.match_body(K10.fn_body(rvals, r"impl PartialOrd for SteelVal\s*"), r"\(self,\s*other\)"))
-    for name, scrut in [("negate", "value"), ("abs", "number"), ("numerator", "number"), ("denominator", "number")]:
-        t1[name] = unary_arms(K10.match_body(K10.fn_body(numbers, r"fn\s+%s\s*\(" % name), scrut))
-    t1["recip"] = unary_arms(K10.match_body(K10.fn_body(numbers, r"pub fn divide_primitive\s*\("), "x"))
+    where = {}
+    for rel in ARM_FILES:
+        per_fn = {}
+        for fn, scrut, binary, arms in scan_matches(rel):
+            per_fn[fn] = per_fn.get(fn, 0) + 1
+            name = RENAME.get(fn, fn) + ("" if per_fn[fn] == 1 else "_%d" % per_fn[fn])
+            if name in t2 or name in t1:
+                name = name + "_" + re.sub(r"\W", "_", os.path.basename(rel)[:-3])
+            (t2 if binary else t1)[name] = arms
+            where[name] = rel
+    for need in ("add_two", "add_two_fallible", "multiply_two", "truncate_quotient", "expt", "number_equality", "partial_cmp"):
+        if need not in t2:
+            die("the binary dispatch of %s was not found by the scan" % need)
+    for need in ("negate", "abs", "recip", "exact_integer_sqrt", "format_number", "sqrt"):
+        if need not in t1:
+            die("the unary dispatch of %s was not found by the scan" % need)
     for k, v in list(t2.items()) + list(t1.items()):
-        if len(v) < 3:
+        if len(v) < 2:
             die("suspiciously few arms extracted for %s" % k)
-    return t2, t1
+    return t2, t1, where
+
+
+def entry_reach(tables):
+    """for the functions the VM's arithmetic op codes and the registered primitives + - * / = < > <= >= reach (C10's
+    translate/c10_ops.py extracts those names into C10/GenOps.lean): which dispatch tables does each reach, by direct
+    calls inside numbers.rs / rvals.rs, up to three levels deep.  (name, [tables])"""
+    numbers = blank_comments_and_strings(open(os.path.join(SRC, "primitives/numbers.rs"), encoding="utf-8").read())
+    rvals = blank_comments_and_strings(open(os.path.join(SRC, "rvals.rs"), encoding="utf-8").read())
+    vmprims = blank_comments_and_strings(open(os.path.join(SRC, "steel_vm/primitives.rs"), encoding="utf-8").read())
+    bodies = {}
+    for code in (numbers, rvals, vmprims):
+        for (n, a, b) in fn_ranges(code):
+            bodies.setdefault(n, code[a:b])
+    table_fns = {}
+    for t in tables:
+        table_fns.setdefault(re.sub(r"_\d+$", "", t), []).append(t)
+    table_fns.setdefault("divide_primitive", []).append("recip")
+
+    def reach(fn, depth, seen):
+        out = set(table_fns.get(fn, []))
+        if depth == 0 or fn not in bodies or fn in seen:
+            return out
+        seen = seen | {fn}
+        body = bodies[fn]
+        for callee in set(re.findall(r"\b([a-z_][a-z0-9_]*)\s*\(", body)):
+            if callee != fn and (callee in bodies):
+                out |= reach(callee, depth - 1, seen)
+        # comparison operators on SteelVal go through PartialOrd
+        if re.search(r"partial_cmp|\bpartial_le\b|<=|>=|\.lt\(|\.le\(|\.gt\(|\.ge\(", body):
+            out |= set(table_fns.get("partial_cmp", []))
+        return out
+    names = ["add_primitive", "subtract_primitive", "multiply_primitive", "divide_primitive", "add_two_fallible", "number_equality",
+             "lte_primitive", "lt_primitive", "gt_primitive", "gte_primitive", "equality_primitive",
+             "less_than", "less_than_equal", "greater_than", "greater_than_equal", "ord_internal"]
+    return [(n, sorted(reach(n, 3, frozenset()))) for n in names if n in bodies]
 
 
 # ------------------------------------------------------------------------------------------------ (2) sites
@@ -137,6 +228,10 @@ SITE_PATTERNS = [
     ("todo", re.compile(r"\b(todo|unimplemented)!")),
     ("panic", re.compile(r"\bpanic!")),
     ("assert", re.compile(r"\b(assert|assert_eq|assert_ne)!")),
+    ("debug_assert", re.compile(r"\bdebug_assert(?:_eq|_ne)?!")),
+    # methods of slices / Vec / VecDeque / RefCell that panic on an index, a range or a size that is out of range
+    # (the receiver's type is not known to a textual scan: map / set methods of the same name are reviewed as benign)
+    ("panicking_method", re.compile(r"\.(split_at|split_at_mut|split_off|split_to|swap_remove|drain|copy_from_slice|clone_from_slice|copy_within|swap|rotate_left|rotate_right|step_by|chunks|chunks_exact|windows|remove|insert|borrow_mut|truncate_front)\s*\(")),
     ("unchecked", re.compile(r"\b(unreachable_unchecked|get_unchecked(?:_mut)?|unwrap_unchecked|from_utf8_unchecked)\s*\(")),
     ("as_usize", re.compile(r"\bas usize\b")),
     ("index", re.compile(r"[A-Za-z0-9_\)\]\?]\[(?!\s*\])[^\[\]]*\]")),
@@ -227,8 +322,11 @@ def fn_ranges(code):
     return res
 
 
+FN_NAMES = {}      # Rust fn -> Scheme names it is registered under (from the attribute)
+
+
 def extract_sites():
-    files = sorted(glob.glob(os.path.join(SRC, "primitives", "*.rs"))) + [os.path.join(SRC, "steel_vm", "primitives.rs")]
+    files = sorted(glob.glob(os.path.join(SRC, "primitives", "**", "*.rs"), recursive=True)) + [os.path.join(SRC, "steel_vm", "primitives.rs")]
     sites = []
     per_file = {}
     for path in files:
@@ -242,6 +340,12 @@ def extract_sites():
         registered = set()
         for m in re.finditer(r"#\[(?:steel_derive::)?(?:function|native|native_mut|context|native_context|custom_function)\b[^\]]*\]\s*(?:pub(?:\([a-z]+\))?\s+)?fn\s+([A-Za-z_0-9]+)", code):
             registered.add(m.group(1))
+            # the Scheme name of the procedure (string contents are blanked in `code`: same offsets in `raw`)
+            nm = re.search(r'name\s*=\s*"([^"]+)"', raw[m.start():m.end()])
+            if nm:
+                FN_NAMES.setdefault(m.group(1), [])
+                if nm.group(1) not in FN_NAMES[m.group(1)]:
+                    FN_NAMES[m.group(1)].append(nm.group(1))
         line_starts = [0]
         for m in re.finditer(r"\n", code):
             line_starts.append(m.end())
@@ -312,7 +416,8 @@ def lean_str(s):
 
 
 def main():
-    t2, t1 = extract_arms()
+    t2, t1, where = extract_arms()
+    reach = entry_reach(list(t2) + list(t1))
     sites, per_file = extract_sites()
     if "--table" in sys.argv:
         for s in sites:
@@ -371,6 +476,12 @@ def main():
     L.append("def unaryTables : List (String × List Arm1) := [")
     L.append(",\n".join("  (%s, arms_%s)" % (lean_str(n), n) for n in t1))
     L.append("]\n")
+    L.append("/-- which file each table comes from -/")
+    L.append("def tableFile : List (String × String) := [" + ", ".join("(%s, %s)" % (lean_str(n), lean_str(where[n])) for n in list(t2) + list(t1)) + "]\n")
+    L.append("/-- the functions behind the arithmetic op codes / registered primitives and the dispatch tables they reach -/")
+    L.append("def entryReach : List (String × List String) := [")
+    L.append(",\n".join("  (%s, [%s])" % (lean_str(n), ", ".join(lean_str(t) for t in ts)) for n, ts in reach))
+    L.append("]\n")
     L.append("def sites : List Site := [")
     L.append(",\n".join("  ⟨%d, %s, %s, %s, %d, %s⟩" % (s["id"], lean_str(s["file"]), lean_str(s["fn"]), lean_str(s["kind"]), s["line"],
                                                        lean_str(s["snippet"])) for s in sites))
@@ -385,7 +496,8 @@ def main():
     kinds = {}
     for s in sites:
         kinds[s["kind"]] = kinds.get(s["kind"], 0) + 1
-    print(json.dumps({"arms": {k: len(v) for k, v in list(t2.items()) + list(t1.items())}, "sites": len(sites),
+    print(json.dumps({"arms": {k: len(v) for k, v in list(t2.items()) + list(t1.items())}, "arm_tables": len(t2) + len(t1),
+                      "entry_reach": {n: ts for n, ts in reach}, "fn_names": FN_NAMES, "sites": len(sites),
                       "sites_by_kind": kinds, "sites_by_file": per_file, "rewritten": old != text}))
 
 
